@@ -358,9 +358,20 @@ def explore(case, opts, rng, stats):
         sig = frozenset((d.id, rel) for d, rel in pr.pc)
         if sig in sigs:
             stuck += 1
-            if stuck > 4:
+            if stuck > 12:
                 reason = "solver model not realisable (path already explored)"
                 break
+            # the solver's exact point lies in an unexplored region, its floating-point image on an explored path: some
+            # comparison of that path is decided within rounding of its threshold.  Those thresholds get a band like ties do.
+            memo = {}
+            for d, rel in pr.pc:
+                try:
+                    v = sc.evalf(d, pr.model, memo)
+                except Exception:  # noqa: BLE001
+                    continue
+                if abs(v) < 1e-7:
+                    tie_nodes[d.id] = d
+                    stats["tie_runs"] = max(stats["tie_runs"], 7)      # switch to bands
             continue
         sigs.add(sig)
         paths.append(pr)
